@@ -790,6 +790,12 @@ class MultiUserChannelMatrix:  # pylint: disable=R0902
             # noinspection PyTypeChecker
             self._H_with_pathloss = self._H_no_pathloss * np.sqrt(
                 self._pathloss_matrix)
+            # What is returned is our cache: as for the channel without
+            # path loss, modification of individual elements is disallowed
+            # so that all the views stay in sync.
+            for block in self._H_with_pathloss.flat:
+                block.setflags(write=False)
+            self._H_with_pathloss.setflags(write=False)
         return self._H_with_pathloss
 
     # Property to get the big channel matrix (with pass loss applied if
@@ -817,6 +823,10 @@ class MultiUserChannelMatrix:  # pylint: disable=R0902
             # noinspection PyTypeChecker
             self._big_H_with_pathloss = (self._big_H_no_pathloss *
                                          np.sqrt(self._pathloss_big_matrix))
+            # What is returned is our cache: as for the channel without
+            # path loss, modification of individual elements is disallowed
+            # so that all the views stay in sync.
+            self._big_H_with_pathloss.setflags(write=False)
         return self._big_H_with_pathloss
 
     # Property to get the pathloss. Use the "set_pathloss" method to set
@@ -1048,17 +1058,22 @@ class MultiUserChannelMatrix:  # pylint: disable=R0902
         self._Nt = Nt_array
         self._update_pathloss_big_matrix()
 
-        self._big_H_no_pathloss = channel_matrix
+        # We keep our own copy of the channel: the caller remains free to
+        # reuse (or modify) the array that was passed, and only our copy is
+        # made read-only below.
+        self._big_H_no_pathloss = np.array(channel_matrix)
+
+        # Assures that _big_H and _H will stay in sync by disallowing
+        # modification of individual elements in both of them. This must be
+        # done before the blocks of _H are created: a view of a writable
+        # array stays writable.
+        self._big_H_no_pathloss.setflags(write=False)
 
         # xxxxxxxxxxxxxxxxxxxxxxxxxxxxxxxxxxxxxxxxxxxxxxxxxxxxxxxxxxxxxxxxx
         # Lets convert the full channel_matrix matrix to our internal
         # representation of H as a matrix of matrices.
         self._H_no_pathloss = single_matrix_to_matrix_of_matrices(
-            channel_matrix, Nr_array, Nt_array)
-
-        # Assures that _big_H and _H will stay in sync by disallowing
-        # modification of individual elements in both of them.
-        self._big_H_no_pathloss.setflags(write=False)
+            self._big_H_no_pathloss, Nr_array, Nt_array)
         self._H_no_pathloss.setflags(write=False)
 
     def randomize(self, Nr: IntOrIntArrayUnion, Nt: IntOrIntArrayUnion,
@@ -1211,7 +1226,15 @@ class MultiUserChannelMatrix:  # pylint: disable=R0902
             The post processing filters of each user. This should be a list
             of 2D np arrays or a 1D np array of 2D np arrays.
         """
-        self._W = filters
+        # We keep our own copies of the filters (the caller remains free to
+        # modify the arrays that were passed): W and big_W must stay in
+        # sync.
+        if filters is None:
+            self._W = None
+        else:
+            self._W = [np.array(w) for w in filters]
+            for w in self._W:
+                w.setflags(write=False)
         # This will be set in the get property only when required.
         self._big_W = None
 
@@ -1241,6 +1264,7 @@ class MultiUserChannelMatrix:  # pylint: disable=R0902
         if self._big_W is None and self.W is not None:
             # noinspection PyArgumentList
             self._big_W = block_diag(*self.W)
+            self._big_W.setflags(write=False)
         return self._big_W
 
     def corrupt_concatenated_data(self, data: np.ndarray) -> np.ndarray:
